@@ -25,7 +25,7 @@ def symlinks_for(ws: dict) -> list:
     return [["l%d" % i, "w/d%d" % i] for i in range(len(ws["roots"]))]
 
 
-HANDLER_KINDS = ["function", "partial", "falsy_list", "falsy_obj", "falsy_list"]
+HANDLER_KINDS = ["function", "partial", "falsy_list", "falsy_obj", "falsy_list", "varargs_fn", "varargs_method", "varargs_partial"]
 UNORDERED_KINDS = ["list", "list", "list", "tuple", "set", "frozenset", "gen", "iter", "keys", "deque"]
 ORDERED_KINDS = ["list", "list", "list", "tuple", "gen", "iter", "keys", "deque"]
 
